@@ -145,6 +145,10 @@ func VerifC13NamedPipe() {
 	case 2: // one record delivered, then idle with a half-written record pending
 		w = verifrt.FifoOpenWriter(path)
 		w.Write("a\nb")
+	case 3: // the writer delivered a record and went away (end-of-stream) before the cancellation
+		w = verifrt.FifoOpenWriter(path)
+		w.Write("a\n")
+		w.Close()
 	}
 	defer verifrt.KeepOpen(w)
 	verifrt.Quiesce()
@@ -155,7 +159,7 @@ func VerifC13NamedPipe() {
 	verifrt.Assert("c13.pipe.error", err != nil)
 	verifrt.Quiesce()
 	verifrt.Assert("c13.pipe.nothing-after-return", calls == before)
-	if state == 2 {
+	if state >= 2 {
 		verifrt.Assert("c13.pipe.delivered-before", before == 1)
 	}
 }
